@@ -814,8 +814,8 @@ def run(ck: Check) -> None:
     ck.coq_props()
     gen_targets.run(ck)          # translator tie: Gallina regenerated from the source + coq/gen/EquivC13.v
     thorough = ck.tier == "thorough"
-    ncases = 8000 if thorough else 450
-    nforced = 40 if thorough else 10
+    ncases = 5000 if thorough else 350
+    nforced = 25 if thorough else 8
     seeds = [(ck.rng.randrange(1 << 40), thorough, None) for _ in range(ncases)]
     seeds += [(ck.rng.randrange(1 << 40), thorough, f) for f in FORCED for _ in range(nforced)]
     explicit = corpus_cases()
